@@ -221,7 +221,8 @@ def gen_pairs(ka, kb, rng, quick):
                 out.append((a, mk(kb, s, db), "perturbed"))
     # ---- different shapes with the same flat data
     diff = [(s1, s2) for s1 in sha for s2 in shb if s1 != s2]
-    if quick:
+    # (with the library's asserts on every such call aborts its process, so the number of mismatching pairs is bounded in both tiers)
+    if quick or len(diff) > 150:
         # deterministic representatives of every relation + a seeded sample
         by_rel = {}
         for s1, s2 in diff:
@@ -231,7 +232,7 @@ def gen_pairs(ka, kb, rng, quick):
         for r in sorted(by_rel):
             lst = by_rel[r]
             pick += lst[:2] + [lst[-1]]
-            pick += rng.sample(lst, min(2, len(lst)))
+            pick += rng.sample(lst, min(2 if quick else 35, len(lst)))
         diff = []
         for x in pick:
             if x not in diff:
@@ -390,7 +391,7 @@ def run(ctx):
                 "+-eps/2, eps, 2eps) at %s position; operands of different shape with the same flat data (%s); emptiness and alternative "
                 "combinations; each of isequal/isclose (both orders, explicit/default eps), reflexive calls and apply_* is one contained execution, "
                 "in both build flavors. distinct = distinct (flavor, pairing, function, operands) with more than one element or mismatched shapes"
-                % ("a few" if quick else "every", "representatives of every relation + seeded sample" if quick else "all shape pairs"))
+                % ("a few" if quick else "every", "representatives of every relation + seeded sample of 2 per relation" if quick else "all shape pairs up to 150 per pairing, else representatives + 35 sampled per relation"))
     ctx.exhaustive = False
     if stats["calls"] == 0:
         ctx.inconc("no comparison executed")
